@@ -56,6 +56,10 @@ def intersphinx_link(label:"Flattenable", url:str) -> Tag:
     """
     return tags.a(label, href=url, class_='intersphinx-link')
 
+class _NotSwitched:
+    """Marker: the linker context has not been switched, use the page of the linker's object."""
+_NOT_SWITCHED = _NotSwitched()
+
 class _EpydocLinker(DocstringLinker):
     """
     This linker implements the xref lookup logic.
@@ -68,7 +72,8 @@ class _EpydocLinker(DocstringLinker):
         """
         
         self._init_obj = obj
-        self._page_object: Optional['model.Documentable'] = obj.page_object
+        # The page object is not cached: it changes when the object is reparented.
+        self._page_object: Union[None, 'model.Documentable', '_NotSwitched'] = _NOT_SWITCHED
     
     @property
     def obj(self) -> 'model.Documentable':
@@ -84,6 +89,8 @@ class _EpydocLinker(DocstringLinker):
         Can be an empty string to always generate full urls. 
         """
         pageob = self._page_object
+        if isinstance(pageob, _NotSwitched):
+            pageob = self._init_obj.page_object
         if pageob is not None:
             return pageob.url
         return ''
